@@ -8,14 +8,12 @@
 #error "compile_file no longer has the shape the path cut at transpile_to_c relies on (obligations/c05.py cut_is_structural): undecided"
 #endif
 #define GATE_NANOC 1
-#define GATE_COUNT_STDERR 1
 #ifndef GATE_VIEW_MAIN
 #define GATE_CUT_AT_TRANSPILE 1
 #endif
 #define VERIF_FTELL_MIN 0L
 #include "gate_contracts.h"
 struct verif_gate __verif_gate;
-int __verif_stderr_msg;
 int __verif_vm_r; uint8_t __verif_top_tag; int64_t __verif_top_i64;
 
 #define main nanoc_main
@@ -32,16 +30,16 @@ __CPROVER_requires(1) __CPROVER_assigns(G.diag_written) __CPROVER_ensures(1);
 #define FRONT_FAILED (G.lex_failed || G.parse_failed || G.import_failed || G.tc_failed)
 static int compile_file(const char *input_file, const char *output_file, CompilerOptions *opts)
 __CPROVER_requires(__CPROVER_is_fresh(opts, sizeof(CompilerOptions)))
-__CPROVER_requires(GATE_INIT && __verif_stderr_msg == 0)
-__CPROVER_assigns(G, __verif_stderr_msg)
-/* C05.gate.nanoc: a failed lexer / parser / import / type-check phase => non-zero, a message on stderr, nothing written,
+__CPROVER_requires(GATE_INIT)
+__CPROVER_assigns(G)
+/* C05.gate.nanoc: a failed lexer / parser / import / type-check phase => non-zero, nothing written,
  * nothing built, nothing executed (the shadow tests run program code), no C generated, no C compiler */
 __CPROVER_ensures(FRONT_FAILED ==> (__CPROVER_return_value != 0 && !G.artifact_written && !G.cc_invoked && !G.transpiled &&
-                                    !G.modules_built && !G.executed && G.shadow_calls == 0 && __verif_stderr_msg))
+                                    !G.modules_built && !G.executed && G.shadow_calls == 0))
 /* the type checker is consulted exactly once before anything is built, run or generated */
 __CPROVER_ensures((G.artifact_written || G.modules_built || G.executed || G.transpiled || G.cc_invoked) ==> (G.tc_calls == 1 && !G.tc_failed))
 /* C06.gate: failed shadow tests => non-zero, and no C generation / C compiler / output file */
-__CPROVER_ensures(G.shadow_failed ==> (__CPROVER_return_value != 0 && !G.artifact_written && !G.cc_invoked && !G.transpiled && __verif_stderr_msg))
+__CPROVER_ensures(G.shadow_failed ==> (__CPROVER_return_value != 0 && !G.artifact_written && !G.cc_invoked && !G.transpiled))
 /* failed module build => non-zero, shadow tests not run */
 __CPROVER_ensures(G.modules_failed ==> (__CPROVER_return_value != 0 && !G.executed && !G.transpiled && !G.cc_invoked));
 
@@ -66,7 +64,7 @@ __CPROVER_ensures(G.cf_calls == __CPROVER_old(G.cf_calls) + 1 && G.cf_ret == __C
 int nanoc_main(int argc, char *argv[])
 __CPROVER_requires(argc >= 1 && argc <= 4096 && __CPROVER_is_fresh(argv, ((size_t)argc + 1) * sizeof(char *)))
 __CPROVER_requires(GATE_INIT)
-__CPROVER_assigns(G, g_argc, g_argv, __CPROVER_object_whole(g_project_root), __verif_stderr_msg)
+__CPROVER_assigns(G, g_argc, g_argv, __CPROVER_object_whole(g_project_root))
 __CPROVER_ensures(G.cf_calls <= 1)
 __CPROVER_ensures(G.cf_calls == 1 ==> __CPROVER_return_value == G.cf_ret)
 /* --version / --help / usage errors: nothing is written, built or run */
